@@ -450,7 +450,8 @@ func c16Sink(w *core.W, entry string, in []byte, wit []byte) callSink {
 			fail("readable-message", "empty message", map[string]string{"code": fmt.Sprint(code)})
 			return
 		}
-		if m := findDump(msg); m != "" {
+		// (a message quotes the user's text: what the user wrote is not a dump)
+		if m := findDump(msg); m != "" && !strings.Contains(string(in), m) && !strings.Contains(string(text), m) {
 			fail("no-internal-dump", fmt.Sprintf("message contains %q: %s", m, trunc(msg, 140)), map[string]string{"code": fmt.Sprint(code)})
 			return
 		}
